@@ -105,8 +105,24 @@ def gen_c01(r, n):
 def gen_c05(r, n):
     cases = []
     for i in range(n):
-        k = ["steplimit", "update", "propagate", "msc", "ifail", "propagate", "steplimit", "update"][i % 8]
-        if k == "propagate":
+        k = ["steplimit", "update", "propagate", "msc", "ifail", "propagate", "physlimit", "physlimit"][i % 8]
+        if k == "physlimit":
+            pid = r.choice([0, 1, 1, 2, 2, 3, 3, 4])
+            emax = {0: 50.0, 1: 9.0, 2: 9.0, 3: 9.0, 4: 50.0}[pid]
+            E = 10 ** r.uniform(-2, math.log10(emax))
+            c = r.random()
+            if c < 0.3:
+                Eset = 0.0                                   # stopped
+            elif c < 0.4:
+                Eset = 10 ** r.uniform(-300, -20)            # tiny but moving
+            elif c < 0.5:
+                Eset = {0: 1e-6, 1: 1e-3, 2: 1e-3, 3: 1e-5, 4: 1e-6}[pid] * r.uniform(1.0, 2.0)
+            else:
+                Eset = E
+            cases.append((k, dict(fixed=r.choice([0.0, 0.0, 0.25, 10 ** r.uniform(-4, 1)]), pid=pid, E=E, Eset=Eset,
+                                  vol=r.choice([0, 1, 2]), mfpmode=r.choice([0, 0, 1, 2, 3]),
+                                  mfpval=r.choice([10 ** r.uniform(-6, 2), 1.0]))))
+        elif k == "propagate":
             step0 = r.choice([10 ** r.uniform(-6, 3), 0.25, math.inf])
             c = r.random()
             base = step0 if math.isfinite(step0) else 1.0
@@ -185,6 +201,8 @@ def harness_line(k, c):
             c["act"], fx(c["iE"]), fx(c["idep"]), len(c["secs"]), " ".join("%d %s" % (p, fx(e)) for p, e in c["secs"]))
     if k == "tcut":
         return "tcut %d %s %s %s %d %s %s" % (c["cutmode"], fx(c["gcut"]), fx(c["ecut"]), fx(c["pcut"]), c["pid"], fx(c["E"]), fx(c["dep0"]))
+    if k == "physlimit":
+        return "physlimit %s %d %s %s %d %d %s" % (fx(c["fixed"]), c["pid"], fx(c["E"]), fx(c["Eset"]), c["vol"], c["mfpmode"], fx(c["mfpval"]))
     if k == "propagate":
         return "propagate %d %s %s %d %d" % (c["pclass"], fx(c["step0"]), fx(c["dist"]), int(c["boundary"]), int(c["can_loop"]))
     if k == "msc":
@@ -238,6 +256,9 @@ def model_expr(k, c, o):
         return "run_tcut %s %s %s %s" % (hexf(c["E"]), hexf(m), b(anti), hexf(c["dep0"]))
     if k == "ifail":
         return "run_ifail %s %s" % (b(VARIANT["fixed"]), hexf(o[5]))
+    if k == "physlimit":
+        step, pc, mfp, xs, he, es, np_, ar = o
+        return "run_physlimit %s %s %s %s %s %s %s" % (b(c["Eset"] == 0.0), hexf(mfp), hexf(xs), b(he), hexf(es), hexf(c["fixed"]), b(np_))
     if k == "propagate":
         return "run_propagate %s %s %s %s" % (zlit(c["pclass"]), hexf(c["step0"]), hexf(c["dist"]), b(c["boundary"]))
     if k == "msc":
@@ -269,6 +290,8 @@ def impl_view(k, c, o):
         return list(o[0:3])
     if k == "ifail":
         return [o[4], o[3]]
+    if k == "physlimit":
+        return [o[0], o[1]]
     if k == "propagate":
         return [o[0], o[1]]
     if k == "msc":
@@ -330,6 +353,15 @@ def oracle(k, c, o):
         w0 = c["E"] + (2 * m if anti else 0.0)
         if abs((o[1] - c["dep0"]) - w0) > 8 * M.EPS * (abs(o[1]) + abs(c["dep0"]) + w0) or o[0] != 0.0 or o[2] != 4:
             return "tracking cut: deposit grew by %r, expected E (+2mc^2) = %r; E'=%r status=%r" % (o[1] - c["dep0"], w0, o[0], o[2])
+    if k == "physlimit":
+        step, pc, mfp, xs, he, es, np_, ar = o
+        if c["Eset"] == 0.0 and (step != 0.0 or pc != 2):
+            return ("stopped particle (at-rest process: %s) got step limit %r with action class %r instead of a zero step "
+                    "handed to the discrete (at-rest) action" % (bool(ar), step, pc))
+        if c["Eset"] > 0 and xs > 0 and step > mfp / xs:
+            return "physics step limit %r exceeds the interaction length mfp/xs = %r" % (step, mfp / xs)
+        if c["Eset"] > 0 and not (step > 0):
+            return "moving particle got a non-positive step limit %r" % step
     if k == "propagate":
         if c["boundary"] and o[1] != 0:
             return "propagator reported a boundary at distance %r (step limit %r) but the post-step action is not the boundary action" % (c["dist"], c["step0"])
@@ -438,6 +470,6 @@ def unit_differential(ctx):
 
 def unit_differential_c05(ctx):
     exe = build_exe(ctx)
-    n = 640 if ctx.tier == "quick" else 12000
+    n = 720 if ctx.tier == "quick" else 12000
     cases = gen_c05(ctx.rng, n)
     return run_cases(ctx, exe, cases, PRE05, "unit05")
